@@ -37,6 +37,9 @@ fixed("C08", "7a182db", "encodeFile emitted the definition of a message group in
 fixed("C11", "2c14b48", "DecodeChained swallowed any error on the first header byte of a following file (test was d.h.Size == 0 && i != 0): a non-EOF reader fault or a zero size byte after one good file returned a nil error",
       "C11-R2-swallow-guard", "github.com/tormoder/fit.DecodeChained/(*github.com/tormoder/fit.decoder).decode#0")
 
+fixed("C04", "973b417", "Header.CheckIntegrity built the serialised header but never wrote it into the hash: Sum16() of the fresh hash is 0, so every non-zero stored header CRC was accepted",
+      "C04-R3-hash-typestate", "(github.com/tormoder/fit.Header).CheckIntegrity/Sum16#0")
+
 json.dump({
     "comment": "Genuine defects of tormoder/fit. status=known: recorded, not repaired (reason in DESIGN.md section 1); the check prints KNOWN-FINDING for exactly that (property, rule, key). status=fixed: repaired by the named fix: commit in /repo; suppresses nothing. This file is never written at run time.",
     "findings": F,
